@@ -5,7 +5,7 @@ def queries():
     qs = []
     for cap in range(0, 6):
         for h in (3, 4, 5, 6):
-            quick = (h == 3 and cap in (0, 1, 2, 3, 5))
+            quick = (h == 3 and cap in (0, 1)) or (h == 2 and cap in (2, 3, 5))    # 3 operations at max_size 2..5 take 6-7 min each: thorough tier
             qs.append(Query('rb_cap%d_h%d' % (cap, h), SRC, 'h_ringbuffer',
                             'RingBuffer<Tracked>(max_size=%d), %d symbolic operations out of 20 kinds (push/emplace/pop both ends, clear, copy/move construct, copy/move assign from a buffer of max_size 2 and into a moved-from buffer, deallocate+allocate with the same and a different size, self-assign), all 8-bit values' % (cap, h),
                             defs=['CAP=%d' % cap, 'H=%d' % h], ll2c=['--alloc-cap', '16'], tiers=('quick', 'thorough') if quick else ('thorough',), timeout=900 if quick else 3600, weight=(cap + 1) * h, unwind=3))
